@@ -194,7 +194,14 @@ def gen_pod(rng, ctx, allow_holes=True):
                                     "uid": "o1", "controller": True}]
     elif r < 0.6:
         meta["ownerReferences"] = [{"apiVersion": "tkestack.io/v1", "kind": rng.choice(["TApp", "Foo", ""]), "name": "t", "uid": "o2"}]
-    elif r < 0.65 and allow_holes:
+    elif r < 0.7:
+        # several owner references (legal: at most ONE may be the controller, none has to be)
+        refs = [{"apiVersion": "apps/v1", "kind": rng.choice(["StatefulSet", "ReplicaSet", "Job", "TApp"]), "name": rng.choice(["web", "dp-5f6c7", "j"]),
+                 "uid": "o%d" % j} for j in range(rng.choice([2, 2, 3]))]
+        if rng.random() < 0.5:
+            refs[rng.randrange(len(refs))]["controller"] = True
+        meta["ownerReferences"] = refs
+    elif r < 0.75 and allow_holes:
         meta["ownerReferences"] = rng.choice([None, [], [{}]])
     if allow_holes and rng.random() < 0.1:
         meta["annotations"] = None
